@@ -31,6 +31,8 @@ module cbm
     character(len=8) :: tag(3)
   end type pt
   character(len=8) :: names(4), stamp(3), ch
+  character(len=8), parameter :: digits0 = "12345678"
+  character(len=8) :: digits
   integer :: a(10), s, t, k, i, n
   type(pt) :: q, qs(3)
 contains
@@ -91,6 +93,7 @@ contains
     names = "abcdefgh"
     stamp = "--------"
     ch = "a"
+    digits = digits0
     do j = 1, 10
       a(j) = j
     end do
@@ -159,6 +162,13 @@ EVAL_FORMS = [
     "n = len({c})", "do i = 1, len({c})\n  n = n + 1\nend do", "n = index({c}, ch)", "ch = {c}",
     "a(1:3) = (/ (s * i, i = 1, 3) /)", "n = sum((/ (a(i), i = 1, s) /))", "call iio(n, sum((/ (a(i), i = 1, t) /)))",
 ]
+# statement CodeBlocks (I/O) that really define a variable: internal READ (the defined item is not the first name of
+# the text) and internal WRITE (defines the character variable used as unit)
+IO_FORMS = [
+    ("read(digits(t:s), *) n", None), ("read(digits, \"(i2)\") a(k)", None), ("read(digits(k:k), \"(i1)\") q%v(t)", None),
+    ("write(ch, \"(i1)\") s", None), ("write(names(k)(1:2), \"(i2)\") s + 10", None), ("write(q%tag(t), \"(i3)\") a(k) + 100", None),
+    ("read(digits(1:3), \"(i1,1x,i1)\") k, a(k)", None),
+]
 CONTEXTS = ["{x}", "if (t > 0) then\n  {x}\nend if", "do i = 1, 1\n  {x}\nend do",
             "if (s < 0) then\n  n = 1\nelse\n  {x}\nend if"]
 
@@ -179,6 +189,7 @@ def statements(tier):
                 out.append((form.format(c=d), None))
         else:
             out.append((form, None))
+    out += IO_FORMS
     res = []
     for n, (x, base) in enumerate(out):
         ctxs = CONTEXTS if tier == "thorough" else ([CONTEXTS[0]] + ([CONTEXTS[1 + (n // 3) % 3]] if n % 3 == 0 else []))
